@@ -128,6 +128,42 @@ impl Session {
         r.get(idx.checked_sub(1)?).map(lsm_tree::Table::id)
     }
 
+    /// Replaces symbolic arguments ("w":"safe", release "which") by concrete ones, so
+    /// that the logged operation is self-contained.
+    pub fn concretise_op(&self, op: &Value) -> Value {
+        let mut op = op.clone();
+        if op.get("w").and_then(Value::as_str).is_some() {
+            let w = match op["w"].as_str() {
+                Some("safe") => {
+                    if let Some(m) = self.snaps.iter().min() {
+                        m.saturating_sub(1)
+                    } else {
+                        self.vis.get()
+                    }
+                }
+                _ => 0,
+            };
+            op["w"] = json!(w);
+        }
+        if op["op"].as_str() == Some("scan") && op.get("S").and_then(Value::as_u64).is_none() {
+            let s = match op["S"].as_str() {
+                Some("vis") => self.vis.get(),
+                Some("oldest") => self.snaps.iter().min().copied().unwrap_or(TOP),
+                Some("newest") => self.snaps.iter().max().copied().unwrap_or(TOP),
+                _ => TOP,
+            };
+            op["S"] = json!(s);
+        }
+        if op["op"].as_str() == Some("release") && op.get("S").and_then(Value::as_u64).is_none() {
+            let s = match op["which"].as_str() {
+                Some("newest") => self.snaps.iter().max().copied(),
+                _ => self.snaps.iter().min().copied(),
+            };
+            op["S"] = json!(s.unwrap_or(TOP + 1));
+        }
+        op
+    }
+
     /// Executes one operation. Returns (ret, extra info to log).
     pub fn exec(&mut self, op: &Value) -> (String, Value) {
         let kind = op["op"].as_str().unwrap_or("").to_string();
@@ -137,11 +173,11 @@ impl Session {
             match kind.as_str() {
                 "write" => {
                     let s = self.seq.next();
-                    for it in op["items"].as_array().ok_or("items")? {
-                        let k = self.conc.key(it["k"].as_i64().ok_or("k")?);
-                        match it["t"].as_str().ok_or("t")? {
+                    for it in op["items"].as_array().ok_or("skip:arg items")? {
+                        let k = self.conc.key(it["k"].as_i64().ok_or("skip:arg k")?);
+                        match it["t"].as_str().ok_or("skip:arg t")? {
                             "V" => {
-                                let v = self.conc.val(it["v"].as_i64().ok_or("v")?);
+                                let v = self.conc.val(it["v"].as_i64().ok_or("skip:arg v")?);
                                 self.t().insert(k, v, s);
                             }
                             "T" => {
@@ -150,7 +186,7 @@ impl Session {
                             "W" => {
                                 self.t().remove_weak(k, s);
                             }
-                            x => return Err(format!("bad type {x}")),
+                            x => return Err(format!("skip:bad type {x}")),
                         }
                     }
                     self.vis.fetch_max(s + 1);
@@ -162,7 +198,7 @@ impl Session {
                     Ok(())
                 }
                 "flush" => {
-                    let w = op["w"].as_u64().ok_or("w")?;
+                    let w = op["w"].as_u64().ok_or("skip:arg w")?;
                     let lock = self.t().get_flush_lock();
                     self.t()
                         .flush(&lock, Self::seqno_arg(w))
@@ -170,17 +206,17 @@ impl Session {
                         .map_err(|e| format!("err:{e:?}"))
                 }
                 "compact" => {
-                    let w = op["w"].as_u64().ok_or("w")?;
+                    let w = op["w"].as_u64().ok_or("skip:arg w")?;
                     let dest = op["dest"].as_u64().unwrap_or(0) as u8;
                     let mut ids = vec![];
-                    for p in op["tables"].as_array().ok_or("tables")? {
+                    for p in op["tables"].as_array().ok_or("skip:arg tables")? {
                         match self.table_at(p) {
                             Some(id) => ids.push(id),
                             None => return Err("skip:position".to_string()),
                         }
                     }
                     info["ids"] = json!(ids);
-                    let choice = match op["kind"].as_str().ok_or("kind")? {
+                    let choice = match op["kind"].as_str().ok_or("skip:arg kind")? {
                         "merge" => ScriptedChoice::Merge {
                             table_ids: ids,
                             dest_level: dest,
@@ -196,14 +232,42 @@ impl Session {
                             dest_level: dest,
                         },
                         "drop" => ScriptedChoice::Drop { table_ids: ids },
-                        x => return Err(format!("bad kind {x}")),
+                        x => return Err(format!("skip:bad kind {x}")),
                     };
                     self.t()
                         .compact(Arc::new(Scripted(choice)), Self::seqno_arg(w))
                         .map_err(|e| format!("err:{e:?}"))
                 }
+                "leveled" => {
+                    let w = op["w"].as_u64().ok_or("skip:arg w")?;
+                    let l0 = op["l0"].as_u64().unwrap_or(2) as u8;
+                    let ts = op["ts"].as_u64().unwrap_or(64);
+                    let strat = lsm_tree::compaction::Leveled::default()
+                        .with_l0_threshold(l0)
+                        .with_table_target_size(ts);
+                    self.t()
+                        .compact(Arc::new(strat), Self::seqno_arg(w))
+                        .map_err(|e| format!("err:{e:?}"))
+                }
+                "movedown" | "pulldown" => {
+                    let w = op["w"].as_u64().ok_or("skip:arg w")?;
+                    let a = op["a"].as_u64().ok_or("skip:arg a")? as u8;
+                    let b = op["b"].as_u64().ok_or("skip:arg b")? as u8;
+                    let r = if kind == "movedown" {
+                        self.t().compact(
+                            Arc::new(lsm_tree::compaction::MoveDown(a, b)),
+                            Self::seqno_arg(w),
+                        )
+                    } else {
+                        self.t().compact(
+                            Arc::new(lsm_tree::compaction::PullDown(a, b)),
+                            Self::seqno_arg(w),
+                        )
+                    };
+                    r.map_err(|e| format!("err:{e:?}"))
+                }
                 "major" => {
-                    let w = op["w"].as_u64().ok_or("w")?;
+                    let w = op["w"].as_u64().ok_or("skip:arg w")?;
                     let target = if op["split"].as_str() == Some("all") {
                         1
                     } else {
@@ -213,12 +277,98 @@ impl Session {
                         .major_compact(target, Self::seqno_arg(w))
                         .map_err(|e| format!("err:{e:?}"))
                 }
+                "scan" => {
+                    use std::ops::Bound;
+                    let sv = op["S"].as_u64().ok_or("skip:arg S")?;
+                    let sq = Self::seqno_arg(sv);
+                    let pat: Vec<String> = op["pat"]
+                        .as_array()
+                        .ok_or("skip:arg pat")?
+                        .iter()
+                        .filter_map(|x| x.as_str().map(str::to_string))
+                        .collect();
+                    if pat.is_empty() {
+                        return Err("skip:arg pat".into());
+                    }
+                    // optional overlay memtable (own seqnos far above the tree's)
+                    let overlay = op.get("overlay").and_then(Value::as_array).map(|items| {
+                        let mt = lsm_tree::Memtable::new(9_999);
+                        for (j, it) in items.iter().enumerate() {
+                            let k = self.conc.key(it["k"].as_i64().unwrap_or(1));
+                            let s = 2_000_000 + j as u64;
+                            let vt = match it["t"].as_str() {
+                                Some("T") => lsm_tree::ValueType::Tombstone,
+                                Some("W") => lsm_tree::ValueType::WeakTombstone,
+                                _ => lsm_tree::ValueType::Value,
+                            };
+                            let v = if vt == lsm_tree::ValueType::Value {
+                                self.conc.val(it["v"].as_i64().unwrap_or(1))
+                            } else {
+                                vec![]
+                            };
+                            mt.insert(lsm_tree::InternalValue::from_components(k, v, s, vt));
+                        }
+                        (Arc::new(mt), SeqNo::MAX)
+                    });
+                    let mut it = if let Some(pfx) = op.get("prefix").filter(|x| !x.is_null()) {
+                        let k = pfx["k"].as_i64().ok_or("skip:arg prefix k")?;
+                        let n = pfx["n"].as_u64().ok_or("skip:arg prefix n")? as usize;
+                        let key = self.conc.key(k);
+                        let p = key[..n.min(key.len())].to_vec();
+                        let pk: Vec<i64> = (1..=self.nkeys)
+                            .filter(|x| self.conc.key(*x).starts_with(&p))
+                            .collect();
+                        info["pk"] = json!(pk);
+                        self.t().prefix(p, sq, overlay)
+                    } else {
+                        let mk = |b: &Value| -> Result<Bound<Vec<u8>>, String> {
+                            let kind = b.get(0).and_then(Value::as_str).ok_or("skip:arg bound kind")?;
+                            let x = b.get(1).and_then(Value::as_i64).ok_or("skip:arg bound x")?;
+                            let key = if kind == "U" { vec![] } else { self.bound_key(x) };
+                            Ok(match kind {
+                                "I" => Bound::Included(key),
+                                "E" => Bound::Excluded(key),
+                                _ => Bound::Unbounded,
+                            })
+                        };
+                        let lo = mk(&op["lo"])?;
+                        let hi = mk(&op["hi"])?;
+                        self.t().range::<Vec<u8>, _>((lo, hi), sq, overlay)
+                    };
+                    let mut res = vec![];
+                    let mut i = 0usize;
+                    let mut last_front = true;
+                    loop {
+                        let front = pat[i % pat.len()] != "B";
+                        last_front = front;
+                        let g = if front { it.next() } else { it.next_back() };
+                        i += 1;
+                        match g {
+                            None => break,
+                            Some(g) => {
+                                let (k, v) = g.into_inner().map_err(|e| format!("err:{e:?}"))?;
+                                res.push(json!([
+                                    self.conc.key_back(&k, self.nkeys),
+                                    self.conc.val_back(&v)
+                                ]));
+                            }
+                        }
+                        if res.len() > 10_000 {
+                            return Err("err:scan does not terminate".into());
+                        }
+                    }
+                    // once one end reports exhaustion the other end must agree
+                    let other = if last_front { it.next_back() } else { it.next() };
+                    info["tail_ok"] = json!(other.is_none());
+                    info["res"] = json!(res);
+                    Ok(())
+                }
                 "droprange" => {
                     use std::ops::Bound;
                     let mk = |b: &Value| -> Result<Bound<Vec<u8>>, String> {
-                        let kind = b.get(0).and_then(Value::as_str).ok_or("bound kind")?;
-                        let x = b.get(1).and_then(Value::as_i64).ok_or("bound x")?;
-                        let key = self.bound_key(x);
+                        let kind = b.get(0).and_then(Value::as_str).ok_or("skip:arg bound kind")?;
+                        let x = b.get(1).and_then(Value::as_i64).ok_or("skip:arg bound x")?;
+                        let key = if kind == "U" { vec![] } else { self.bound_key(x) };
                         Ok(match kind {
                             "I" => Bound::Included(key),
                             "E" => Bound::Excluded(key),
@@ -234,13 +384,13 @@ impl Session {
                 "clear" => self.t().clear().map_err(|e| format!("err:{e:?}")),
                 "ingest" => {
                     let mut ing = self.t().ingestion().map_err(|e| format!("err:{e:?}"))?;
-                    for it in op["items"].as_array().ok_or("items")? {
-                        let k = self.conc.key(it["k"].as_i64().ok_or("k")?);
-                        let r = match it["t"].as_str().ok_or("t")? {
-                            "V" => ing.write(k, self.conc.val(it["v"].as_i64().ok_or("v")?)),
+                    for it in op["items"].as_array().ok_or("skip:arg items")? {
+                        let k = self.conc.key(it["k"].as_i64().ok_or("skip:arg k")?);
+                        let r = match it["t"].as_str().ok_or("skip:arg t")? {
+                            "V" => ing.write(k, self.conc.val(it["v"].as_i64().ok_or("skip:arg v")?)),
                             "T" => ing.write_tombstone(k),
                             "W" => ing.write_weak_tombstone(k),
-                            x => return Err(format!("bad type {x}")),
+                            x => return Err(format!("skip:bad type {x}")),
                         };
                         r.map_err(|e| format!("err:{e:?}"))?;
                     }
@@ -262,7 +412,7 @@ impl Session {
                     Ok(())
                 }
                 "release" => {
-                    let s = op["S"].as_u64().ok_or("S")?;
+                    let s = op["S"].as_u64().ok_or("skip:arg S")?;
                     self.snaps.retain(|x| *x != s);
                     Ok(())
                 }
@@ -462,7 +612,31 @@ impl Session {
                     json!([[-3, -3]])
                 }
             };
-            scans.push(json!({"S": s, "r": sc}));
+            let extra = catch_unwind(AssertUnwindSafe(|| -> Result<Value, String> {
+                let first = match self.t().first_key_value(sq, None) {
+                    Some(g) => self.conc.key_back(&g.key().map_err(|e| format!("err:{e:?}"))?, self.nkeys),
+                    None => 0,
+                };
+                let last = match self.t().last_key_value(sq, None) {
+                    Some(g) => self.conc.key_back(&g.key().map_err(|e| format!("err:{e:?}"))?, self.nkeys),
+                    None => 0,
+                };
+                let len = self.t().len(sq, None).map_err(|e| format!("err:{e:?}"))?;
+                let empty = self.t().is_empty(sq, None).map_err(|e| format!("err:{e:?}"))?;
+                Ok(json!({"first": first, "last": last, "len": len, "empty": empty}))
+            }));
+            let extra = match extra {
+                Ok(Ok(v)) => v,
+                Ok(Err(e)) => {
+                    notes.push(format!("S={s} first/last/len {e}"));
+                    json!({"first": -2, "last": -2, "len": -2, "empty": false})
+                }
+                Err(e) => {
+                    notes.push(format!("S={s} first/last/len panic:{}", panic_msg(&e)));
+                    json!({"first": -3, "last": -3, "len": -3, "empty": false})
+                }
+            };
+            scans.push(json!({"S": s, "r": sc, "x": extra}));
         }
         let opt = |x: Option<u64>| x.map_or(-1i64, |v| v as i64);
         json!({
